@@ -53,7 +53,11 @@ NoOverlap(localSeq, remoteSeq) ==
   /\ A # {}
   /\ ((\E va, vb \in A : va[1] > vb[2])        \* some minimum above some maximum: protocol ranges
       \/ (\E vc, vd \in A : vc[4] > vd[5]))    \* delegate ranges
-VsnChoices == {<<a, b, c, 0, 1, d>> : a \in {1, 2}, b \in {2, 5}, c \in {1, 3}, d \in {0, 1}}
+\* version vectors <<pmin, pmax, pcur, dmin, dmax, dcur>>: protocol part x delegate part (delegate ranges that
+\* overlap, nest, and do not overlap; maxima below and above the protocol maximum)
+ProtoC == {<<1, 2, 1>>, <<1, 5, 2>>, <<2, 5, 3>>, <<1, 5, 3>>}
+DelegC == {<<0, 1, 0>>, <<0, 1, 1>>, <<0, 4, 3>>, <<2, 5, 3>>, <<6, 8, 7>>}
+VsnChoices == {pr \o dl : pr \in ProtoC, dl \in DelegC}
                 \cup {<<3, 5, 4, 0, 0, 0>>, <<1, 1, 1, 0, 0, 0>>}
 SelfEntry == [state |-> "alive", vsn |-> <<1, 5, 2, 0, 0, 0>>]
 Entries == [state : {"alive", "dead"}, vsn : VsnChoices]
